@@ -90,11 +90,18 @@ def shared_writes(tree: ast.Module) -> List[Tuple[str, int, str]]:
                 if d:
                     tainted[n.targets[0].id] = d
                 local_bound.add(n.targets[0].id)
+        def is_globals_call(e):
+            return isinstance(e, ast.Call) and isinstance(e.func, ast.Name) and e.func.id == "globals" and not e.args
+
         for n in ast.walk(fn):
             if isinstance(n, ast.Global):
                 continue
+            if isinstance(n, ast.Call) and isinstance(n.func, ast.Attribute) and n.func.attr in ("update", "setdefault", "__setitem__") and is_globals_call(n.func.value):
+                out.append((qual, n.lineno, "assigns module globals through globals()"))
             if isinstance(n, (ast.Assign, ast.AnnAssign)):
                 for t in (n.targets if isinstance(n, ast.Assign) else [n.target]):
+                    if isinstance(t, ast.Subscript) and is_globals_call(t.value):
+                        out.append((qual, n.lineno, "assigns a module global through globals()"))
                     if isinstance(t, ast.Name) and t.id in globs:
                         out.append((qual, n.lineno, f"assigns module global {t.id}"))
                     if isinstance(t, ast.Subscript) and shared_expr(t.value):
